@@ -24,10 +24,13 @@ class JobInformation:
     def state(self) -> Optional[JobState]:
         if (self.path / f"{self.scriptname}.done").is_file():
             return JobState.DONE
-        if (self.path / f"{self.scriptname}.failed").is_file():
-            return JobState.ERROR
+        # A job that is launched again still has the failure marker of its
+        # previous run until it has taken its locks: the process file tells
+        # that it is (maybe waiting to be) running
         if (self.path / f"{self.scriptname}.pid").is_file():
             return JobState.RUNNING
+        if (self.path / f"{self.scriptname}.failed").is_file():
+            return JobState.ERROR
         else:
             return None
 
